@@ -762,7 +762,7 @@ Section MixedLazy.
     ML w -> NOEMIT w -> step1 fn rtl fuel w (PMoveCtor src dst) = (w', None) -> LSIMP w' /\ MS w' /\ NOACT w'.
   Proof.
     intros HML HNE H. pose proof HML as (Hinv & Hna & HS & HM).
-    destruct (PropMove.movector_shape fn rtl fuel w src dst w' Hinv Hna HNE H) as (s0 & dn & sn & Hs & Hd & Hne & Vd & Ud & Vs & Us & PW & Sw & HB & _ & HT & EV & LEN).
+    destruct (PropMove.movector_shape fn rtl fuel w src dst w' Hinv HNE H) as (s0 & dn & sn & Hs & Hd & Hne & Vd & Ud & Vs & Us & PW & Sw & HB & _ & HT & EV & LEN).
     assert (Pd : pview w dst = None) by (unfold pview; rewrite Hd; reflexivity).
     split; [|split].
     - intros b x' Hx' He. pose proof (HB b) as Hb. rewrite Hx' in Hb. destruct (get_bind w b) as [x|] eqn:Hx; [|destruct Hb].
@@ -786,7 +786,7 @@ Section MixedLazy.
     step1 fn rtl fuel w (PMoveAssign dst src) = (w', None) -> LSIMP w' /\ MS w' /\ NOACT w'.
   Proof.
     intros HML HNE Hnr H. pose proof HML as (Hinv & Hna & HS & HM).
-    destruct (PropMove.moveassign_shape fn rtl fuel w dst src w' Hinv Hna HNE Hnr H)
+    destruct (PropMove.moveassign_shape fn rtl fuel w dst src w' Hinv HNE Hnr H)
       as (s0 & d0 & dn & sn & Hs & Hd & Hne & Vd & Ud & Vs & Us & PW & Sw & HB & HT & HD & LEN).
     (* a binding of the new world is the image of a binding of the old one *)
     assert (Old : forall b x', get_bind w' b = Some x' -> exists x, get_bind w b = Some x /\ b_evp x' = b_evp x /\
